@@ -19,6 +19,8 @@
                         output: [#ops] ++ per op [raised; file; nbytes; ns; raw; warned; bin exists; cbin exists; scratch bin exists]
                                 ++ [file a fresh Reader(x.meta) would resolve to]
                                 raw 0=None 1=memmap 2=mtscomp 3=closed
+   kind 4 (meta-less flat binary, nothing given)
+                        input : [4; size]          output: [nc; ns; nsync]  ([0;0;0] = AssertionError)
    state quadruple: [0;0;0;0] absent, [1;j;0;0] partial with j chunks,
                     [2;t;r;c] complete with tag t (1 Orig 2 Comp 3 Hdr 4 MetaOf). *)
 From Coq Require Import ZArith List Bool.
@@ -137,6 +139,7 @@ Definition run (inp : list Z) : list Z :=
       run_fs opk r c m B keep chk ow sd fault st
   | 2 :: nc :: ns :: size :: data => run_codec nc ns size data
   | 3 :: n :: nc :: zc :: nch :: ns0 :: f0 :: iw :: ops => run_obj n nc zc nch ns0 f0 iw ops
+  | [4; size] => match flat_guess size with Some (nc, ns, nsy) => [nc; ns; nsy] | None => [0; 0; 0] end
   | _ => [-999]
   end.
 
